@@ -8,12 +8,13 @@ import mrargs
 PROP = 'C02'
 LEAN_MODULES = ['BR.Props.C02']
 THEOREMS = ['BR.C02.matrixLog3_port_eq_ref', 'BR.C02.matrixLog6_port_eq_ref', 'BR.C02.normalize_port_eq_ref',
-            'BR.C02.ikLoop_success_sound', 'BR.C02.ikLoop_failure_means_error', 'BR.C02.ikErr_false_iff']
+            'BR.C02.ikLoop_success_sound', 'BR.C02.ikLoop_failure_means_error', 'BR.C02.ikErr_false_iff',
+            'BR.C02.cubic_endpoints', 'BR.C02.quintic_endpoints', 'BR.C02.cubic_range', 'BR.C02.quintic_range']
 TIE = ('K twice on the same inputs: the Float instance of lean/BR/Model/MR.lean (compiled driver) is compared with the port (basic_robotics.modern_robotics_numba) AND with the vendored reference '
        '(vendor/modern_robotics_ref, modern_robotics 1.1.1) for every modelled function; all 47 shared functions are additionally compared port-vs-reference directly (values, shapes, exceptions).')
 TRUSTED = ['Lean 4.33 kernel + Mathlib v4.33 (axioms: propext, Classical.choice, Quot.sound)', 'harness/mrargs.py (valid-argument generators), harness/c02.py',
            'vendored reference copy vendor/modern_robotics_ref/core.py (pinned 1.1.1)', 'np.linalg.pinv/inv/svd inside both libraries (same NumPy)',
-           'dynamics, trajectory and control functions are not modelled in Lean: their agreement is differential evidence only']
+           'dynamics, trajectory (other than the two time scalings) and control functions are not modelled in Lean: their agreement is differential evidence only']
 ASSUMPTIONS = ['valid float64 arguments; cases where the reference itself returns non-finite values are out of scope']
 RULE = ('47 shared functions x generated valid arguments (chains 1..7, unit/prismatic screws, SE(3) link frames, SPD inertias, N=2..12, both time scalings); distinct = distinct (function, arguments); '
         'non-trivial = arguments not all zero')
@@ -31,6 +32,7 @@ MODELLED = {  # function -> (driver name, arg flattener, result flattener)
     'FKinSpace': ('mr.fkinspace', lambda a: list(a[0].reshape(-1)) + [float(len(a[2]))] + list(a[1].T.reshape(-1)) + list(a[2]), lambda r: r.reshape(-1)),
     'FKinBody': ('mr.fkinbody', lambda a: list(a[0].reshape(-1)) + [float(len(a[2]))] + list(a[1].T.reshape(-1)) + list(a[2]), lambda r: r.reshape(-1)),
     'JacobianSpace': ('mr.jacobianspace', lambda a: [float(len(a[1]))] + list(a[0].T.reshape(-1)) + list(a[1]), lambda r: r.T.reshape(-1)),
+    'CubicTimeScaling': ('mr.cubic', lambda a: [a[0], a[1]], lambda r: [r]), 'QuinticTimeScaling': ('mr.quintic', lambda a: [a[0], a[1]], lambda r: [r]),
     'JacobianBody': ('mr.jacobianbody', lambda a: [float(len(a[1]))] + list(a[0].T.reshape(-1)) + list(a[1]), lambda r: r.T.reshape(-1)),
 }
 
